@@ -1246,9 +1246,13 @@ fn execute_match(
                     converted_base,
                 },
         } => {
+            // the bidder receives the converted base: use that denom's marker type
+            let is_converted_base_restricted_marker =
+                is_restricted_marker(&deps.querier, converted_base.denom.clone());
+
             response = add_transfer(
                 response,
-                is_base_restricted_marker.to_owned(),
+                is_converted_base_restricted_marker,
                 execute_size.into(),
                 converted_base.to_owned().denom,
                 bid_order.owner.to_owned(),
